@@ -310,6 +310,34 @@ func runParseProp(c *Ctx, prop string) (int, error) {
 				events = append(events, e)
 			}
 		}
+		if prop == "C16" || prop == "C17" {
+			// text-level variants of the standard layout. Their meaning is not taken from the specification's AST but
+			// from ReadFile itself (the property is quantified over accepted texts): the File of the formatted text is
+			// compared with the File of the text.
+			for _, tv := range textVariants(ast.Render(cs.Tokens, ast.Layouts[0])) {
+				pres, _, file1 := parseText(tv.text)
+				e := map[string]interface{}{"ev": "reformat", "cid": i + 1, "layout": tv.name, "unspec": true, "parse": pres, "text": tv.text,
+					"fres": "", "reparse": "", "file1": map[string]interface{}{}, "file2": map[string]interface{}{}, "idem": false, "out": ""}
+				if pres == "nil" && file1 != nil {
+					e["file1"] = file1
+					fres, fmsg, out := formatText(tv.text)
+					e["fres"], e["fmsg"], e["out"] = fres, fmsg, out
+					if fres == "timeout" {
+						timeouts++
+					}
+					if fres == "nil" {
+						rres, _, file2 := parseText(out)
+						e["reparse"] = rres
+						if file2 != nil {
+							e["file2"] = file2
+						}
+						f2res, _, out2 := formatText(out)
+						e["idem"] = f2res == "nil" && out2 == out
+					}
+				}
+				events = append(events, e)
+			}
+		}
 	}
 	devs := c.OpenDevs(prop)
 	vs, total, st, tr, err := judgeParse(c, "Trace_Parse", prop, devs, cases, events)
@@ -479,4 +507,43 @@ func blankFloatConsts(file json.RawMessage) json.RawMessage {
 	}
 	b, _ := json.Marshal(f)
 	return b
+}
+
+type textVariant struct{ name, text string }
+
+// textVariants: the text with blanks in front of every line end (LF and CRLF), and with a line break (behind blanks)
+// behind the first character of every quoted literal.
+func textVariants(std string) []textVariant {
+	var vs []textVariant
+	vs = append(vs, textVariant{"trailing blanks, LF", strings.ReplaceAll(std, "\n", " \t\n")})
+	vs = append(vs, textVariant{"trailing blanks, CRLF", strings.ReplaceAll(std, "\n", "  \r\n")})
+	var b strings.Builder
+	in, changed, first := false, false, false
+	for k := 0; k < len(std); k++ {
+		ch := std[k]
+		switch {
+		case ch == '\\' && in && k+1 < len(std):
+			b.WriteByte(ch)
+			k++
+			b.WriteByte(std[k])
+			continue
+		case ch == '"':
+			in = !in
+			first = in
+		case ch == '\n':
+			in = false // (a comment with a quote in it)
+		case in && first:
+			// behind the first character of the literal
+			b.WriteByte(ch)
+			b.WriteString("  \t\n ")
+			changed, first = true, false
+			continue
+		}
+		b.WriteByte(ch)
+	}
+	if changed {
+		vs = append(vs, textVariant{"line breaks inside quoted literals", b.String()})
+		vs = append(vs, textVariant{"line breaks inside quoted literals, CRLF", strings.ReplaceAll(b.String(), "\n", "\r\n")})
+	}
+	return vs
 }
